@@ -113,14 +113,36 @@ class NPKey:
     """numpy stand-in inside the privately loaded cache.py"""
 
     def __getattr__(self, n):
-        return getattr(np, n)
+        f = getattr(np, n)
+        if not callable(f) or isinstance(f, type):
+            return f
+
+        def guarded(*a, **k):
+            # a numpy routine the identity model does not know must not silently
+            # strip identities: that would turn the key into concrete bytes
+            for x in list(a) + list(k.values()):
+                if isinstance(x, TA) or isinstance(x, TF) or (isinstance(x, (tuple, list)) and any(isinstance(e, TF) for e in x)):
+                    raise NotImplementedError("C15 identity model: numpy.%s on identity-tagged data" % n)
+            return f(*a, **k)
+
+        return guarded
 
     def asarray(self, x, *a, **k):
         if isinstance(x, TA):
             return x
         if isinstance(x, (tuple, list)) and any(isinstance(e, TF) for e in x):
             return _Seq(x)
+        if isinstance(x, TF):
+            return _Seq((x,))
         return np.asarray(x, *a, **k)
+
+    # conversions that keep values and order: same identity behaviour as asarray
+    ascontiguousarray = asarray
+    asanyarray = asarray
+    array = asarray
+    atleast_1d = asarray
+    asfortranarray = asarray
+    ravel = asarray
 
 
 class _Seq:
@@ -383,7 +405,7 @@ def part_a(run, patch=None, account=True):
         s.add(zero_side)
         scn = dict(stored=sk1, requested=sk2)
         r_ = solve(s, "stored_entry_never_answers_a_different_request", scn)
-        m = s.model() if r_ == "sat" else None
+        m = _generic_model(s, va, vb) if r_ == "sat" else None
         s.pop()
         if r_ == "sat":
             cex.append(dict(obligation="stored_entry_never_answers_a_different_request", stored=sk1, requested=sk2,
@@ -392,6 +414,44 @@ def part_a(run, patch=None, account=True):
         run.sample(dict(skeleton=recs[0][0], lookup_tokens=_show(recs[0][1]), store_tokens=_show(recs[0][2])), cap=2)
         run.extra["skeletons"] = len(recs)
     return cex
+
+
+def _generic(which):
+    """two generic, mutually different requests: no equal levels, no uniform shifts, non-constant profiles"""
+    g = {}
+    a = which == "a"
+    g.update(halo=17.0 if a else 23.0, bg=0.4 if a else 0.75, xm=12.0 if a else 15.0, ym=9.0 if a else 7.0,
+             xmx=60.0 if a else 72.0, ymx=40.0 if a else 48.0)
+    for i, zv in enumerate(np.linspace(0.05, 2.5, NZ) if a else np.linspace(0.09, 1.7, NZ) ** 1.5 + 0.3):
+        g["z%d" % i] = round(float(zv), 4)
+    base = dict(u=(2.5, -0.4), v=(-1.2, 0.3), Kx=(1.6, -0.2), Ky=(0.9, 0.15), Kz=(0.6, 0.25)) if a else \
+        dict(u=(1.7, -0.25), v=(-0.6, 0.45), Kx=(1.1, 0.2), Ky=(1.4, -0.15), Kz=(1.0, 0.2))
+    for n, (c0, c1) in base.items():
+        for i in range(NZ):
+            g["%s%d" % (n, i)] = round(c0 + c1 * i, 4)
+    return g
+
+
+def _generic_model(s, va, vb):
+    """the solver's witness, steered towards generic values: each preferred value is kept when the
+    query stays satisfiable with it. A witness that differs from the stored request only by, say, a uniform
+    shift of the grid under constant profiles is a key collision without a visibly stale result; the
+    generic witness shows the stale result whenever the collision allows one."""
+    s.set("timeout", 5000)
+    depth = 0
+    for vars_, pref in ((va, _generic("a")), (vb, _generic("b"))):
+        for k in SLOTS:
+            s.push()
+            s.add(vars_[k] == z3.RealVal(repr(pref[k])))
+            if str(s.check()) == "sat":
+                depth += 1
+            else:
+                s.pop()
+    assert str(s.check()) == "sat"
+    m = s.model()
+    for _ in range(depth):
+        s.pop()
+    return m
 
 
 def _show(toks):
